@@ -22,7 +22,7 @@ RULE = ("per case ~14 randomly chosen aliasing probes on a collection with gener
         "container.")
 ASSUMPTIONS = ["Redis/MongoDB/Zarr are in-process fakes"]
 STRATA = ["default"]
-PER = {"quick": {"default": 60}, "thorough": {"default": 1500}}
+PER = {"quick": {"default": 300}, "thorough": {"default": 1500}}
 PROBES = ["arg", "arg", "arg", "out_call", "out_values", "out_items", "popped", "deleted_child",
           "assign_child_same", "assign_child_other", "assign_root_other", "ctor_data"]
 
